@@ -5,7 +5,7 @@ silent) against the scratch copy and prints which check / tier / key caught it. 
 committed evidence."""
 import subprocess, sys, os, re, json, time
 
-WT = "/tmp/mut-scratch"
+WT = "/tmp/mut-scratch-%d" % os.getpid()
 VERIF = os.path.dirname(os.path.dirname(os.path.abspath(__file__)))
 ENV = dict(os.environ, GOPROXY="off", GOSUMDB="off", GOTOOLCHAIN="local")
 ENV.pop("GOFLAGS", None)
